@@ -57,15 +57,15 @@ pub mod w10 {
       pub struct Prog;
       relation r0(i64, i64);
       relation r1(i64, i64, i64);
-      lattice r2(i64, Set<i64>);
-      lattice r3(Dual<i64>);
-      r2(v0, Set::singleton((*v0))) <-- r1(v0, 2, v0);
-      r2(v2, v0) <-- r2(3, v0), r0(v1, v2);
-      r2(v1, Set::singleton((*v1))) <-- r2(0, v0), r2(v1, v2);
-      r3(Dual(2)) <-- r0(v0, v0);
-      r3(Dual(((v0.0) + 1))) <-- r3(v0), r1(v1, v1, v1);
-      r0(v1, v2) <-- r1(v0, v1, v2) if ((*v2) < 5);
-      r3(Dual(1)) <-- r0(v0, v0), r0(v1, v2);
+      lattice r2(i64, Option<i64>);
+      lattice r3(i64);
+      r2(v0, Some((*v0))) <-- r1(v0, 2, v0);
+      r2(v0, v1) <-- r2(v0, v1), r0(v2, v3);
+      r3((*v0)) <-- r0(0, v0);
+      r3(std::cmp::min(((*v1) + 0), 6)) <-- r3(v0), r3(v1);
+      r0(v0, v0) <-- r0(v0, v0), r2(v0, v1) if ((*v0) < 3);
+      r2(1, Some(0)) <-- r3(v0), r3(v1);
+      r3((*v0)) <-- r2(v0, v1);
    }
    pub struct Inst { p: Prog, pool: Option<ascent::rayon::ThreadPool> }
    pub fn make(pool: Option<usize>) -> Box<dyn Driver> {
@@ -78,8 +78,8 @@ pub mod w10 {
          match rel {
          0 => { let v: Vec<(i64,i64,)> = parse_rows(rows)?; if !append { self.p.r0 = Default::default(); } for x in v { self.p.r0.push(x); } },
          1 => { let v: Vec<(i64,i64,i64,)> = parse_rows(rows)?; if !append { self.p.r1 = Default::default(); } for x in v { self.p.r1.push(x); } },
-         2 => { let v: Vec<(i64,Set<i64>,)> = parse_rows(rows)?; if !append { self.p.r2 = Default::default(); } for x in v { self.p.r2.push(std::sync::RwLock::new(x)); } },
-         3 => { let v: Vec<(Dual<i64>,)> = parse_rows(rows)?; if !append { self.p.r3 = Default::default(); } for x in v { self.p.r3.push(std::sync::RwLock::new(x)); } },
+         2 => { let v: Vec<(i64,Option<i64>,)> = parse_rows(rows)?; if !append { self.p.r2 = Default::default(); } for x in v { self.p.r2.push(std::sync::RwLock::new(x)); } },
+         3 => { let v: Vec<(i64,)> = parse_rows(rows)?; if !append { self.p.r3 = Default::default(); } for x in v { self.p.r3.push(std::sync::RwLock::new(x)); } },
             _ => return None,
          }
          Some(())
@@ -102,18 +102,20 @@ pub mod w18 {
       pub struct Prog;
       relation r0(i64, i64);
       relation r1(i64, i64, i64);
-      lattice r2(i64, i64, Option<i64>);
+      lattice r2(i64, i64, Dual<i64>);
       lattice r3(i64, Set<i64>);
-      r2(v0, v0, Some((*v0))) <-- r0(v0, v0);
-      r2(v0, v1, v2) <-- r2(v0, v1, v2), r1(v3, v4, v0);
+      r2(v0, v0, Dual((*v0))) <-- r0(v0, v0);
+      r2(v2, v3, Dual(((v1.0) + 3))) <-- r2(v0, 3, v1), r0(v2, v3);
       r2(v0, v0, v2) <-- r2(v0, v0, v1), r2(v0, v0, v2);
-      r3(v0, Set::singleton((*v1))) <-- r1(3, v0, v1) if ((*v0) < 6);
+      r3(v0, Set::singleton((*v1))) <-- r0(v0, v1);
+      r3(v1, v2) <-- r3(v0, v2), r0(v0, v1);
+      r3(v0, Set::singleton((*v0))) <-- r0(v0, v0);
       r3(v1, v0) <-- r3(0, v0), r0(v1, v1) if ((*v1) < 4);
       r3(((*v2) + 1), Set::singleton(3)) <-- r3(v0, v1), r3(v2, v3), if ((*v2) < 6);
       r1(0, v0, v0) <-- r2(v0, 3, v1), r3(v0, v2);
-      r2(v0, v1, Some((*v1))) <-- r1(v0, v0, v1);
-      r2(v0, v1, Some((*v1))) <-- r0(v0, v1);
-      r3(v1, Set::singleton((*v0))) <-- r2(v0, v1, v2);
+      r2(v0, v1, Dual((*v1))) <-- r1(v0, v0, v1);
+      r2(v0, v1, Dual((*v1))) <-- r2(v0, v1, v2);
+      r3(v0, Set::singleton((*v0))) <-- r2(v0, v1, v2) if ((*v0) < 5);
    }
    pub struct Inst { p: Prog, pool: Option<ascent::rayon::ThreadPool> }
    pub fn make(pool: Option<usize>) -> Box<dyn Driver> {
@@ -126,7 +128,7 @@ pub mod w18 {
          match rel {
          0 => { let v: Vec<(i64,i64,)> = parse_rows(rows)?; if !append { self.p.r0 = Default::default(); } for x in v { self.p.r0.push(x); } },
          1 => { let v: Vec<(i64,i64,i64,)> = parse_rows(rows)?; if !append { self.p.r1 = Default::default(); } for x in v { self.p.r1.push(x); } },
-         2 => { let v: Vec<(i64,i64,Option<i64>,)> = parse_rows(rows)?; if !append { self.p.r2 = Default::default(); } for x in v { self.p.r2.push(std::sync::RwLock::new(x)); } },
+         2 => { let v: Vec<(i64,i64,Dual<i64>,)> = parse_rows(rows)?; if !append { self.p.r2 = Default::default(); } for x in v { self.p.r2.push(std::sync::RwLock::new(x)); } },
          3 => { let v: Vec<(i64,Set<i64>,)> = parse_rows(rows)?; if !append { self.p.r3 = Default::default(); } for x in v { self.p.r3.push(std::sync::RwLock::new(x)); } },
             _ => return None,
          }
